@@ -296,6 +296,51 @@ func vh_C10_Concurrent() {
 	vfReach("end")
 }
 
+// concurrent registry updates: two goroutines change the subscriber list at the same time (Unsubscribe || Unsubscribe,
+// Unsubscribe || Subscribe, Subscribe || Subscribe); a Publish that begins after both returned reaches exactly the
+// subscriptions registered then - none resurrected, none dropped - once each
+func vh_C10_ConcurrentRegistry() {
+	p := PublisherNewGenerics[int]()
+	var mu sync.Mutex
+	calls := make([]int, 5)
+	mk := func(id int) Subscription[int] {
+		return Subscription[int]{OnNext: func(v int) { mu.Lock(); calls[id]++; mu.Unlock() }}
+	}
+	p.Subscribe(mk(0))
+	b := p.Subscribe(mk(1))
+	c := p.Subscribe(mk(2))
+	mode := vfChoose("mode", 3)
+	var wg sync.WaitGroup
+	wg.Add(2)
+	go func() {
+		if mode == 2 {
+			p.Subscribe(mk(3))
+		} else {
+			p.Unsubscribe(b)
+		}
+		wg.Done()
+	}()
+	go func() {
+		if mode == 0 {
+			p.Unsubscribe(c)
+		} else {
+			p.Subscribe(mk(4))
+		}
+		wg.Done()
+	}()
+	wg.Wait()
+	p.Publish(7)
+	want := [][]int{{1, 0, 0, 0, 0}, {1, 0, 1, 0, 1}, {1, 1, 1, 1, 1}}[mode]
+	for id := range calls {
+		if want[id] == 1 {
+			vfAssert("registered-exactly-once", calls[id] == 1)
+		} else {
+			vfAssert("unsubscribed-never-called", calls[id] == 0)
+		}
+	}
+	vfReach("end")
+}
+
 // the util-instance constructor Publisher.New() (an interface{} publisher) obeys the same delivery clauses
 func vh_C10_UtilInstance() {
 	p := Publisher.New()
